@@ -4,13 +4,19 @@ import json
 import os
 
 V = os.path.dirname(os.path.dirname(os.path.abspath(__file__)))
+try:
+    HIST = json.load(open(os.path.join(V, 'seeded', 'HISTORY.json')))
+except Exception:
+    HIST = {}
 rows = []
 for f in sorted(glob.glob(os.path.join(V, 'seeded', '*', '*', 'result.json'))):
     r = json.load(open(f))
     c = r.get('checks', {}).get(r['property'], {})
     rows.append((r['property'], r['variant'], (r.get('summary') or '')[:160].replace('|', '/').replace('\n', ' '),
                  'yes' if r.get('tests_pass') else 'NO', 'yes' if (r.get('demo_fails_with_change') and r.get('demo_passes_without')) else 'NO',
-                 'caught' if c.get('caught') else 'MISSED', ', '.join(c.get('layers', [])) or '-', ', '.join(c.get('violation_kinds', []))[:120]))
+                 'caught' if c.get('caught') else 'MISSED', ', '.join(c.get('layers', [])) or '-', ', '.join(c.get('violation_kinds', []))[:120],
+                 HIST.get('%s/%s' % (r['property'], r['variant']), {}).get('first_run', 'caught'),
+                 HIST.get('%s/%s' % (r['property'], r['variant']), {}).get('strengthening', '-')))
 with open(os.path.join(V, 'seeded', 'README.md'), 'w') as f:
     f.write('# Seeded changes\n\nEach directory `seeded/<property>/<variant>/` holds a change to jaraco/cssutils written by an independent sub-agent that '
             'was given only the property text and a scratch worktree: `patch.diff` (applies to /repo HEAD), `demo.py` (fails with the change, passes without), '
@@ -18,7 +24,10 @@ with open(os.path.join(V, 'seeded', 'README.md'), 'w') as f:
             'and the outcome of `VERIF_REPO=<patched tree> ./check <property> --tier quick`).\n\n'
             'Layers: *proof/translation* = a regenerated definition changed and an obligation no longer checks; *correspondence* = extracted model and '
             'implementation disagree; *search* = a property oracle found a concrete failing input (the replay).\n\n')
-    f.write('| property | variant | change | 410 tests pass | demo ok | check | layers | violation kinds |\n|---|---|---|---|---|---|---|---|\n')
+    f.write('Variants a, b: first round; c, d: second round (agents told what a, b were and asked for other mechanisms). *first run* is the outcome '
+            'when the seed first met the check; where it was not a catch by a concrete failing input, *strengthening* says what was added to the '
+            'check afterwards (generators and oracles only - no check was loosened); the other columns are the current outcome.\n\n')
+    f.write('| property | variant | change | 410 tests pass | demo ok | check | layers | violation kinds | first run | strengthening |\n|---|---|---|---|---|---|---|---|---|---|\n')
     for r in rows:
         f.write('| %s |\n' % ' | '.join(r))
     n = len(rows)
